@@ -272,7 +272,11 @@ def writtenBefore (written : List Nat) (v w : Nat) : Bool :=
 
 /-- C02 "never rolled back": a key whose value was replaced in place still shows that value, a newer
 one, or has left the store -/
-def monitorRollback (tl : Tally) (g : Ghost) (s : CSnap) : Tally × Ghost :=
+def monitorRollback (tl : Tally) (g : Ghost) (s : CSnap) (cbs : List CB := []) : Tally × Ghost :=
+  -- an entry the step itself evicted or swept (composite steps of the async traces apply several items at
+  -- once: the key can leave and come back with an older queued value within one step) has not stayed resident
+  let g := { g with inPlace := g.inPlace.filter fun (k, w) =>
+    !(cbs.any fun cb => match cb with | .evict k' _ w' _ => k' == k && w' == w | _ => false) }
   g.inPlace.foldl (fun (acc : Tally × Ghost) (kw : Nat × Nat) =>
     let (tl, g) := acc
     let (k, w) := kw
@@ -375,7 +379,7 @@ def finishStep (st : CacheSt) (tl : Tally) (c' : Cache) (what : String) (cbsMode
   let tl := compareCSnap tl (modelSnap c') snap what
   let g := noteCallbacks g cbsImpl
   let tl := monitorSnapshot tl g snap quiescentExtra
-  let (tl, g) := monitorRollback tl g snap
+  let (tl, g) := monitorRollback tl g snap cbsImpl
   -- nothing in flight: the combined cost of what is not yet reclaimed is what was last asked for
   -- each charged key (C04's premise follows the history, not the peak)
   let g := if snap.buf == 0 && g.blocked.isEmpty && quiescentExtra then
@@ -697,6 +701,11 @@ partial def stepCache (st : CacheSt) (tl : Tally) (act : String) (ans : String) 
           | some (_, bcf, _, _, _) => (cf == 0 || cf == bcf) && !vetoed
           | none => false
         let g := if dropped && !wasUpdatePath then { g with dropsExpected := g.dropsExpected + 1 } else g
+        -- an Update item that found the insert buffer full is dropped although the call returns true: the buffer
+        -- overflowed (C04's premise is gone) and the key's charge stays what was applied before, not what was asked last
+        let updDropped := wasUpdatePath && !c.closed && !(only && absentOrExpired) &&
+          (g.prev.map (·.buf)) == some snap.buf
+        let g := if updDropped then { g with pressure := true } else g
         let g := if retS == "err" then { g with errored := true } else g
         let tl := monitorIsolation tl g snap k cf "insert" none cbsImpl
         let tl := if ret == retI then tl else tl.divergeAt "c.insert.ret" (toString ret) retS
